@@ -14,3 +14,9 @@ fp("dask/array/overlap.py", "_overlap_internal_chunks", "overlap_internal", "tri
    "nearest", "constant", "boundaries", "ensure_minimum_chunksize", "overlap", "map_overlap", "sliding_window_view",
    "coerce_depth", "coerce_boundary")
 fp("dask/layers.py", "ArrayOverlapLayer._construct_graph", "_expand_keys_around_center", "fractional_slice")
+
+fp("dask/array/_shuffle.py", "_shuffle", "_validate_indexer", "concatenate_arrays")
+fp("dask/array/chunk.py", "slice_with_int_dask_array", "slice_with_int_dask_array_aggregate", "getitem")
+fp("dask/array/core.py", "_vindex", "_vindex_array", "_numpy_vindex")
+fp("dask/array/slicing.py", "slice_with_newaxes", "slice_wrap_lists", "slice_array", "slice_with_int_dask_array",
+   "slice_with_int_dask_array_on_axis", "slice_with_bool_dask_array")
